@@ -1,6 +1,12 @@
 """C08 — visitors reach every node once with true context (probe visitors, dispatch cache over
-histories of visits); the default transformer deep-copies."""
+histories of visits, in-place edits between visits, shared sub-objects, tweaked method prefixes);
+the default transformer deep-copies.
+
+The structure of a tree is always read here from the attributes that DEFINE a node (`expr`, `a`,
+`low`, `high`, `term`, `operands`) — never from `node.children`, `==` or `repr`, which are the things
+under test — and every call is judged on the tree AS IT IS at the moment of the call."""
 from decimal import Decimal
+from fractions import Fraction
 
 import lib
 import gentree
@@ -11,6 +17,9 @@ CLASS_NAMES = ["Word", "Phrase", "Regex", "SearchField", "Group", "FieldGroup", 
                "Plus", "Not", "Prohibit", "From", "To", "NoneItem"]
 ABSTRACT_NAMES = ["Item", "Term", "BaseGroup", "BaseApprox", "BaseOperation", "Unary", "UnaryOperator",
                   "OpenRange"]
+# (visitor_method_prefix, generic_visitor_method_name): the documented tweak, mixed with the default
+FLAVOURS = [("visit_", "generic_visit")] * 3 + [("rewrite_", "generic_visit"), ("on_", "fallback"),
+                                                ("visit_", "default_rule"), ("on_", "generic_visit")]
 
 
 def g_cls(name):
@@ -35,22 +44,195 @@ def g_vconf(vc):
                                   lib.g_bool(vc["lg"]), lib.g_bool(vc["tp"]))
 
 
+# ------------------------------------------------------------------ the tree as it is (attribute based)
+
+def kids(T, n):
+    if isinstance(n, T.BaseOperation):
+        return list(n.operands)
+    return [getattr(n, a) for a in n._children_attrs]
+
+
+def true_nodes(T, n, path=()):
+    """document pre-order of (path, node), read from the defining attributes"""
+    yield path, n
+    for i, c in enumerate(kids(T, n)):
+        yield from true_nodes(T, c, path + (i,))
+
+
+def tdesc(T, n):
+    k = type(n).__name__
+    if isinstance(n, T.Term):
+        return "%s(%r)" % (k, n.value)
+    extra = ""
+    if isinstance(n, T.SearchField):
+        extra = "%r, " % n.name
+    tail = ""
+    if isinstance(n, T.BaseApprox):
+        tail = ", %s%s" % (n.degree, "?" if n._implicit_degree else "")
+    if isinstance(n, T.Boost):
+        tail = ", %s%s" % (n.force, "?" if n.implicit_force else "")
+    return "%s(%s%s%s)" % (k, extra, ", ".join(tdesc(T, c) for c in kids(T, n)), tail)
+
+
+def fresh(T, n):
+    """an unshared deep copy of the tree as it is now, rebuilt through the constructors (not
+    copy.deepcopy, which would also copy whatever private caches the objects carry)"""
+    cs = [fresh(T, c) for c in kids(T, n)]
+    kw = dict(pos=n.pos, size=n.size, head=n.head, tail=n.tail)
+    if isinstance(n, T.Term):
+        new = type(n)(n.value, **kw)
+    elif isinstance(n, T.SearchField):
+        new = T.SearchField(n.name, cs[0], **kw)
+    elif isinstance(n, T.Range):
+        new = T.Range(cs[0], cs[1], n.include_low, n.include_high, **kw)
+    elif isinstance(n, T.BaseApprox):
+        new = type(n)(cs[0], None if n._implicit_degree else n.degree, **kw)
+        new.degree = n.degree
+    elif isinstance(n, T.Boost):
+        new = T.Boost(cs[0], None if n.implicit_force else n.force, **kw)
+        new.force = n.force
+    elif isinstance(n, T.OpenRange):
+        new = type(n)(cs[0], n.include, **kw)
+    elif isinstance(n, T.BaseOperation):
+        new = type(n)(*cs, **kw)
+    elif isinstance(n, T.NoneItem):
+        new = T.NoneItem(**kw)
+    else:   # Group, FieldGroup, Plus, Not, Prohibit
+        new = type(n)(cs[0], **kw)
+    if getattr(n, "_luqum_name", None) is not None:
+        setattr(new, "_luqum_name", n._luqum_name)
+    return new
+
+
+def sem_eq(T, a, b):
+    """'equal trees' stated independently of Item.__eq__: same class, same meaning-bearing attributes,
+    same children (read from the defining attributes)"""
+    if type(a) is not type(b):
+        return False
+    if isinstance(a, T.Term) and a.value != b.value:
+        return False
+    if isinstance(a, T.SearchField) and a.name != b.name:
+        return False
+    if isinstance(a, T.Range) and (a.include_low, a.include_high) != (b.include_low, b.include_high):
+        return False
+    if isinstance(a, T.OpenRange) and a.include != b.include:
+        return False
+    if isinstance(a, T.BaseApprox) and Fraction(Decimal(a.degree)) != Fraction(Decimal(b.degree)):
+        return False
+    if isinstance(a, T.Boost) and Fraction(Decimal(a.force)) != Fraction(Decimal(b.force)):
+        return False
+    ka, kb = kids(T, a), kids(T, b)
+    return len(ka) == len(kb) and all(sem_eq(T, x, y) for x, y in zip(ka, kb))
+
+
+def set_child(T, parent, i, new, how):
+    """in-place edit of child number i: through the named attribute / operands, or the children setter"""
+    if how == "setter":
+        cs = kids(T, parent)
+        cs[i] = new
+        parent.children = cs
+    elif isinstance(parent, T.BaseOperation):
+        ops = list(parent.operands)
+        ops[i] = new
+        parent.operands = tuple(ops)
+    else:
+        setattr(parent, parent._children_attrs[i], new)
+
+
+def contains(T, sub, node):
+    return any(x is node for _, x in true_nodes(T, sub))
+
+
+def edit_in_place(T, r, g, tree):
+    """one random in-place edit below the root; returns a description or None"""
+    nodes = list(true_nodes(T, tree))
+    cands = [(p, n) for p, n in nodes if kids(T, n) or isinstance(n, T.BaseOperation)]
+    if not cands:
+        return None
+    path, node = r.choice(cands)
+    how = r.choice(["attr", "attr", "setter"])
+    ks = kids(T, node)
+    x = r.random()
+    if isinstance(node, T.BaseOperation) and (x < 0.4 or not ks):
+        ops = list(ks)
+        what = r.choice(["append", "drop", "reverse"])
+        if what == "append" or not ops:
+            ops.append(g.tree(r.randrange(0, 2)))
+            what = "append"
+        elif what == "drop":
+            ops.pop(r.randrange(len(ops)))
+        else:
+            ops.reverse()
+        if how == "setter":
+            node.children = ops
+        else:
+            node.operands = tuple(ops)
+        return "%s operands of %s at %r via %s" % (what, type(node).__name__, path,
+                                                   "children setter" if how == "setter" else ".operands")
+    i = r.randrange(len(ks))
+    if x > 0.8:
+        # put an object that already sits elsewhere in the tree (sharing), never creating a cycle
+        others = [c for _, c in nodes if c is not tree and not contains(T, c, node)]
+        new = r.choice(others) if others else g.tree(r.randrange(0, 3))
+        kind = "shared reference to %s" % tdesc(T, new)[:80]
+    else:
+        new = g.tree(r.randrange(0, 3))
+        kind = tdesc(T, new)[:80]
+    set_child(T, node, i, new, how)
+    via = "children setter" if how == "setter" else (
+        ".operands" if isinstance(node, T.BaseOperation) else "." + node._children_attrs[i])
+    return "child %d of %s at %r := %s via %s" % (i, type(node).__name__, path, kind, via)
+
+
+def make_shared(T, r, tree):
+    """make one object occur at two positions of the tree (done before any use of the tree)"""
+    nodes = [(p, n) for p, n in true_nodes(T, tree) if p]
+    r.shuffle(nodes)
+    for p, n in nodes:
+        for q, m in nodes:
+            if p != q and q[:len(p)] != p and p[:len(q)] != q:
+                parent = tree
+                for i in q[:-1]:
+                    parent = kids(T, parent)[i]
+                set_child(T, parent, q[-1], n, "attr")
+                return True
+    return False
+
+
 # ------------------------------------------------------------------ probe visitors
 
-def make_probe_class(V, name, H, pt, lg, parent=None):
-    """a visitor class with a visit_<k> probe handler for every k in H (and a wrapped generic_visit
-    when lg); every handler yields one event, then runs the library's own generic_visit"""
+def make_probe_class(V, name, H, pt, lg, prefix="visit_", gname="generic_visit", decoys=(), parent=None):
+    """a visitor class with a <prefix><k> probe handler for every k in H (H is what the class defines
+    under ITS OWN visitor_method_prefix); the handler named by generic_visitor_method_name is wrapped
+    when lg.  Every handler yields one event, then runs the library's own generic_visit.  `decoys` are
+    methods named with ANOTHER prefix: they must never be called."""
     base = V.PathTrackingVisitor if pt else V.TreeVisitor
 
-    def mk(kname):
+    def mk(kname, decoy=False):
         def handler(self, node, context):
-            yield (id(self), context.get("path"), kname, tuple(context.get("parents", ())), node)
+            yield (id(self), context.get("path"), kname, tuple(context.get("parents", ())), node, decoy)
             yield from base.generic_visit(self, node, context)
         handler._probe = kname
+        handler._decoy = decoy
         return handler
 
-    ns = {"visit_" + V.camel_to_lower(k): mk(k) for k in H}
-    if lg:
+    ns = {prefix + V.camel_to_lower(k): mk(k) for k in H}
+    other = "visit_" if prefix != "visit_" else "on_"
+    for k in decoys:
+        ns[other + V.camel_to_lower(k)] = mk(k, decoy=True)
+    if prefix != "visit_":
+        ns["visitor_method_prefix"] = prefix
+    if gname != "generic_visit":
+        ns["generic_visitor_method_name"] = gname
+        if lg:
+            ns[gname] = mk(None)
+        else:
+            def passthrough(self, node, context):
+                yield from base.generic_visit(self, node, context)
+            passthrough._probe = None
+            passthrough._decoy = False
+            ns[gname] = passthrough
+    elif lg:
         ns["generic_visit"] = mk(None)
     return type(name, (parent or base,), ns)
 
@@ -66,26 +248,33 @@ def most_specific(T, H, node):
     return best[0]
 
 
+def proj(ev):
+    _self, cpath, hname, parents, node, decoy = ev
+    return (cpath, hname, tuple(type(p).__name__ for p in parents), type(node).__name__, decoy)
+
+
 def visit_oracle(T, vc, inst, tree, events):
     """the traversal clauses evaluated on the implementation's events; None or a reason"""
     expected = []
-    for path, node in gentree.all_nodes(tree):      # document pre-order, computed from .children
+    for path, node in true_nodes(T, tree):
         h = most_specific(T, vc["H"], node)
         if h is not None or vc["lg"]:
             expected.append((path, node, h))
     if len(events) != len(expected):
         return "number of events %d != number of nodes with a handler %d" % (len(events), len(expected))
-    for (self_id, cpath, hname, parents, node), (path, xnode, h) in zip(events, expected):
+    for (self_id, cpath, hname, parents, node, decoy), (path, xnode, h) in zip(events, expected):
         if node is not xnode:
             return "event out of pre-order / wrong node at %r" % (path,)
         if self_id != id(inst):
             return "handler ran on another instance at %r" % (path,)
+        if decoy:
+            return "a method that does not carry the visitor's prefix was called at %r" % (path,)
         if hname != h:
             return "handler %r is not the most specific one (%r) at %r" % (hname, h, path)
         chain, cur = [], tree
         for i in path:
             chain.append(cur)
-            cur = cur.children[i]
+            cur = kids(T, cur)[i]
         if vc["tp"]:
             if len(parents) != len(chain) or any(a is not b for a, b in zip(parents, chain)):
                 return "parents context is not the chain of ancestors at %r" % (path,)
@@ -97,7 +286,7 @@ def visit_oracle(T, vc, inst, tree, events):
 
 
 def g_event(ev):
-    _self, cpath, hname, parents, node = ev
+    _self, cpath, hname, parents, node, _decoy = ev
     return "(%s, %s, %s, %s)" % (g_opath(cpath), g_ocls(hname),
                                  g_tlist([g_cls(type(p).__name__) for p in parents], "cls"),
                                  g_cls(type(node).__name__))
@@ -125,10 +314,11 @@ Definition ocls_eqb (a b : option cls) : bool :=
 Definition pyev_eqb (a b : pyev) : bool :=
   let '(p, h, ps, c) := a in let '(p', h', ps', c') := b in
   opath_eqb p p' && ocls_eqb h h' && list_eqb cls_eqb ps ps' && cls_eqb c c'.
-Definition chk_hist (c : list vconf * list item * list (nat * nat) * list (list pyev)) : bool :=
-  let '(vcs, trees, visits, expected) := c in
+(* a history: the configuration of every instance; the visits (instance, the tree as it was right
+   before that call); the events the implementation produced for each visit *)
+Definition chk_hist (c : list vconf * list (nat * item) * list (list pyev)) : bool :=
+  let '(vcs, h, expected) := c in
   let vc := fun i => nth i vcs (mkV [] false false false) in
-  let h := map (fun it => (fst it, nth (snd it) trees (NoneItem meta0))) visits in
   list_eqb (list_eqb pyev_eqb) (map (map ev_proj) (fst (run_visits code_cache_shared vc h []))) expected
   && list_eqb (list_eqb pyev_eqb) (map (fun it => map ev_proj (traverse (vc (fst it)) (snd it))) h) expected.
 Definition bound_eqb (a b : nat * option cls) : bool := Nat.eqb (fst a) (fst b) && ocls_eqb (snd a) (snd b).
@@ -173,67 +363,84 @@ def histories(T, V, r, n, res, stats):
             parent = None
             H = random_handlers(r)
             lg = r.random() < 0.35
+            prefix, gname = r.choice(FLAVOURS)
+            decoys = random_handlers(r) if r.random() < 0.5 else []
             # sometimes derive from an earlier probe class of the same kind: handlers are inherited
             earlier = [c for c in classes if c["pt"] == pt]
             if earlier and r.random() < 0.25:
                 p = r.choice(earlier)
-                parent = p["cls"]
+                parent, prefix, gname = p["cls"], p["prefix"], p["gname"]
                 H = list(p["H"]) + [k2 for k2 in H if k2 not in p["H"]]
                 lg = lg or p["lg"]
-            cls = make_probe_class(V, "Probe%d_%d" % (ci, k), H, pt, lg, parent)
-            classes.append({"cls": cls, "H": H, "pt": pt, "lg": lg})
+            cls = make_probe_class(V, "Probe%d_%d" % (ci, k), H, pt, lg, prefix, gname, decoys, parent)
+            classes.append({"cls": cls, "H": H, "pt": pt, "lg": lg, "prefix": prefix, "gname": gname})
+            stats["prefixes"][prefix] = stats["prefixes"].get(prefix, 0) + 1
         insts = []
         for c in classes:
             for _ in range(r.randrange(1, 4)):
                 tp = r.random() < 0.6
-                insts.append(({"H": c["H"], "pt": c["pt"], "lg": c["lg"], "tp": tp}, c["cls"](track_parents=tp)))
+                insts.append(({"H": c["H"], "pt": c["pt"], "lg": c["lg"], "tp": tp, "prefix": c["prefix"],
+                               "generic": c["gname"]}, c["cls"](track_parents=tp)))
         r.shuffle(insts)
         trees = [g.tree(r.randrange(0, 4)) for _ in range(r.randrange(2, 4))]
-        gtrees = [lib.g_item(t) for t in trees]
-        snaps = [[id(nd) for _, nd in gentree.all_nodes(t)] for t in trees]
-        visits = [(r.randrange(len(insts)), r.randrange(len(trees))) for _ in range(r.randrange(5, 13))]
-        expected = []
+        for t in trees:
+            if r.random() < 0.25 and make_shared(T, r, t):
+                stats["shared_trees"] += 1
+        steps = ["tree %d = %s" % (i, tdesc(T, t)[:400]) for i, t in enumerate(trees)]
+        visits, expected = [], []
         seen_types = {}
         cache_hits = 0
-        for ii, ti in visits:
+        edits = 0
+        for step in range(r.randrange(5, 13)):
+            if step and r.random() < 0.35:
+                ti = r.randrange(len(trees))
+                what = edit_in_place(T, r, g, trees[ti])
+                if what:
+                    edits += 1
+                    steps.append("edit tree %d: %s" % (ti, what))
+            ii, ti = r.randrange(len(insts)), r.randrange(len(trees))
             vc, inst = insts[ii]
-            for _, nd in gentree.all_nodes(trees[ti]):
+            tree = trees[ti]
+            gt = lib.g_item(tree)                       # the tree as it is right before the call
+            ids = [id(nd) for _, nd in true_nodes(T, tree)]
+            steps.append("instance %d (handlers %s%s, %s) visits tree %d" % (
+                ii, vc["prefix"], "|".join(vc["H"]), "path" if vc["pt"] else "plain", ti))
+            for _, nd in true_nodes(T, tree):
                 key = (ii, type(nd))
                 cache_hits += key in seen_types
                 seen_types[key] = True
             try:
-                events = inst.visit(trees[ti])
-            except Exception as e:
-                res.failures.append(({"kind": "visit raised", "exception": repr(e),
-                                      "tree": gentree.describe(trees[ti])[:1500], "visitor": repr(vc)}, None))
-                events = []
-            try:
-                why = visit_oracle(T, vc, inst, trees[ti], events)
+                events = inst.visit(tree)
+                why = visit_oracle(T, vc, inst, tree, events)
                 gev = g_tlist([g_event(e) for e in events], "pyev")
+                if not why:
+                    # judged against an unshared deep copy of the tree as it is now
+                    ref = inst.visit(fresh(T, tree))
+                    if [proj(e) for e in ref] != [proj(e) for e in events]:
+                        why = "events differ from those on a fresh deep copy of the same tree"
             except Exception as e:
-                why = "malformed events (not yielded by this visitor's probes): %r" % (e,)
+                why = "visit raised / malformed events: %r" % (e,)
                 gev = "(@nil pyev)"
             if why:
                 res.failures.append(({"kind": "traversal", "why": why, "visitor": repr(vc),
-                                      "history": [(i, insts[i][0]["H"], t) for i, t in visits],
-                                      "tree": gentree.describe(trees[ti])[:1500]}, None))
+                                      "history": list(steps), "tree_now": tdesc(T, tree)[:1500]}, None))
+            if lib.g_item(tree) != gt or [id(nd) for _, nd in true_nodes(T, tree)] != ids:
+                res.failures.append(({"kind": "visitor modified the tree", "history": list(steps)}, None))
+            visits.append("(%d%%nat, %s)" % (ii, gt))
             expected.append(gev)
-            stats["events"] += len(events)
-        for t, gt, sn in zip(trees, gtrees, snaps):
-            if lib.g_item(t) != gt or [id(nd) for _, nd in gentree.all_nodes(t)] != sn:
-                res.failures.append(({"kind": "visitor modified the tree", "tree": gentree.describe(t)[:1500]}, None))
-        hist_cases.append("(%s, %s, %s, %s)" % (
-            lib.g_list([g_vconf(vc) for vc, _ in insts]), lib.g_list(gtrees),
-            lib.g_list(["(%d%%nat, %d%%nat)" % v for v in visits]), lib.g_list(expected)))
-        desc = {"classes": [(c["H"], "path" if c["pt"] else "plain", c["lg"]) for c in classes],
-                "instances": [(vc["H"], vc["tp"]) for vc, _ in insts], "visits": visits,
-                "trees": [gentree.describe(t)[:300] for t in trees]}
+            stats["events"] += gev.count("Some C") + gev.count("@None cls")
+        hist_cases.append("(%s, %s, %s)" % (lib.g_list([g_vconf(vc) for vc, _ in insts]),
+                                            lib.g_list(visits), lib.g_list(expected)))
+        desc = {"classes": [(c["prefix"], c["H"], "path" if c["pt"] else "plain", c["lg"], c["gname"])
+                            for c in classes],
+                "instances": [(vc["H"], vc["tp"]) for vc, _ in insts], "steps": steps}
         hist_payloads.append(desc)
         stats["classes"][nclasses] = stats["classes"].get(nclasses, 0) + 1
         stats["abstract_handlers"] += sum(1 for c in classes for k in c["H"] if k in ABSTRACT_NAMES + ["object"])
         stats["handlers"] += sum(len(c["H"]) for c in classes)
         stats["cache_hits"] += cache_hits
-        if cache_hits and len({tuple(sorted(c["H"])) for c in classes}) >= 2:
+        stats["in_place_edits"] += edits
+        if cache_hits and len({(c["prefix"], tuple(sorted(c["H"]))) for c in classes}) >= 2:
             nontrivial.add(repr(desc))
 
         # --- a history of bare _get_method look-ups on fresh instances of the same classes
@@ -248,21 +455,27 @@ def histories(T, V, r, n, res, stats):
             c, inst = linsts[ii]
             m = inst._get_method(samples[k])
             owner = [j for j, (_, x) in enumerate(linsts) if x is getattr(m, "__self__", None)]
-            hname = getattr(getattr(m, "__func__", None), "_probe", None)
-            if len(owner) != 1 or owner[0] != ii:
-                res.failures.append(({"kind": "cache", "why": "method bound to another instance",
-                                      "classes": [x["H"] for x, _ in linsts], "ops": ops + [(ii, k)]}, None))
-            if hname != most_specific(T, c["H"], samples[k]):
-                res.failures.append(({"kind": "cache", "why": "look-up returned %r, most specific is %r" % (
-                    hname, most_specific(T, c["H"], samples[k])),
-                    "classes": [x["H"] for x, _ in linsts], "ops": ops + [(ii, k)]}, None))
+            fn = getattr(m, "__func__", None)
+            hname = getattr(fn, "_probe", None)
             ops.append((ii, k))
+            why = None
+            if len(owner) != 1 or owner[0] != ii:
+                why = "method bound to another instance"
+            elif getattr(fn, "_decoy", False):
+                why = "look-up returned a method that does not carry the visitor's prefix"
+            elif hname != most_specific(T, c["H"], samples[k]):
+                why = "look-up returned %r, most specific is %r" % (hname, most_specific(T, c["H"], samples[k]))
+            elif hname is None and getattr(fn, "__name__", "") not in ("generic_visit", "handler", "passthrough"):
+                why = "generic look-up returned %r" % (fn,)
+            if why:
+                res.failures.append(({"kind": "cache", "why": why, "ops": list(ops),
+                                      "classes": [(x["prefix"], x["H"]) for x, _ in linsts]}, None))
             got.append((owner[0] if owner else 999, hname))
         look_cases.append("(%s, %s, %s)" % (
             lib.g_list([g_tlist([g_cls(k) for k in c["H"]], "cls") for c, _ in linsts]),
             lib.g_list(["(%d%%nat, %s)" % (i, g_cls(k)) for i, k in ops]),
             lib.g_list(["(%d%%nat, %s)" % (i, g_ocls(h)) for i, h in got])))
-        look_payloads.append({"classes": [c["H"] for c, _ in linsts], "ops": ops})
+        look_payloads.append({"classes": [(c["prefix"], c["H"]) for c, _ in linsts], "ops": ops})
     return hist_cases, hist_payloads, look_cases, look_payloads, nontrivial
 
 
@@ -275,7 +488,7 @@ def _norm(T):
 def not_wellformed(T, tree):
     """executable recognition of objects whose degree / force was assigned after construction in a
     way no constructor produces (implicit flag with a non-default value, un-normalised force)"""
-    for _, n in gentree.all_nodes(tree):
+    for _, n in true_nodes(T, tree):
         if isinstance(n, T.Fuzzy) and n._implicit_degree and str(n.degree) != "0.5":
             return True
         if isinstance(n, T.Proximity) and n._implicit_degree and n.degree != 1:
@@ -290,11 +503,14 @@ def not_wellformed(T, tree):
 
 
 def copy_oracle(T, tree, new, ids_before):
-    if not (new == tree):
-        return "copy != input"
+    if not sem_eq(T, new, tree):
+        return "copy is not the same tree as the input (class / attributes / children)"
+    ref = fresh(T, tree)
+    if not (new == tree) or not (new == ref) or not (ref == new):
+        return "copy != input (Item.__eq__)"
     if new.__str__(head_tail=True) != tree.__str__(head_tail=True) or str(new) != str(tree):
         return "copy prints %r, input prints %r" % (new.__str__(head_tail=True), tree.__str__(head_tail=True))
-    a, b = list(gentree.all_nodes(new)), list(gentree.all_nodes(tree))
+    a, b = list(true_nodes(T, new)), list(true_nodes(T, tree))
     if [p for p, _ in a] != [p for p, _ in b]:
         return "copy has another shape"
     for (p, x), (_, y) in zip(a, b):
@@ -303,6 +519,9 @@ def copy_oracle(T, tree, new, ids_before):
     shared = [p for p, x in a if id(x) in ids_before]
     if shared:
         return "copy shares a node with the input at %r" % (shared[0],)
+    if [type(c) for c in new.children] != [type(c) for c in kids(T, new)] or \
+            any(c is not d for c, d in zip(new.children, kids(T, new))):
+        return "children of the copy are not its defining attributes"
     return None
 
 
@@ -318,21 +537,48 @@ def mutated_corpus(T):
     return [f, p, b, b2, T.AndOperation(T.Word("x"), T.Group(b2))]
 
 
+def make_transformer(V, kind):
+    if kind == "plain":
+        return V.TreeTransformer()
+    if kind == "path":
+        return V.PathTrackingTransformer()
+    if kind == "tracking":
+        return V.TreeTransformer(track_new_parents=True, track_parents=True)
+    # the documented tweak on a transformer that defines no handler: still the default copy
+    base = V.PathTrackingTransformer if kind == "renamed-path" else V.TreeTransformer
+
+    def copy_node(self, node, context):
+        yield from base.generic_visit(self, node, context)
+
+    cls = type("Renamed", (base,), {"visitor_method_prefix": "rewrite_",
+                                    "generic_visitor_method_name": "copy_node", "copy_node": copy_node})
+    return cls()
+
+
 def copies(T, V, r, n, res, stats):
     g = gentree.Gen(r, T, layout=0.5, odd=0.15, positions=0.4)
+    w = T.Word("s", tail=" ")
+    grp = T.Group(T.OrOperation(T.Word("a"), T.Word("b")))
     corpus = [T.Fuzzy(T.Word("a")), T.Proximity(T.Phrase('"a b"')), T.Boost(T.Word("a"), None),
               T.Fuzzy(T.Word("a"), Decimal("1.50")), T.Boost(T.Word("a"), "10"), T.Boost(T.Word("a"), "1.50"),
               T.Boost(T.Word("a"), "1234567890123456789012345678901"), T.AndOperation(), T.OrOperation(T.Word("a")),
               T.Range(T.AndOperation(T.Word("a"), T.Word("b")), T.NoneItem()), T.NoneItem(head=" ", tail=" "),
-              T.UnknownOperation(*[T.Word("w%d" % i, pos=i, size=2, tail=" ") for i in range(40)])]
+              T.UnknownOperation(*[T.Word("w%d" % i, pos=i, size=2, tail=" ") for i in range(40)]),
+              # one object at two positions
+              T.AndOperation(w, w), T.Range(w, w), T.OrOperation(grp, T.Not(grp), T.Boost(grp, 2))]
     mutated = mutated_corpus(T)
     trees = corpus + mutated + [g.tree(r.randrange(0, 5)) for _ in range(n)]
     cases, payloads = [], []
     seen = set()
     witnesses = 0
     for idx, tree in enumerate(trees):
-        if idx >= len(corpus) + len(mutated):
-            for _, nd in gentree.all_nodes(tree):
+        rand = idx >= len(corpus) + len(mutated)
+        steps = []
+        if rand:
+            if r.random() < 0.2 and make_shared(T, r, tree):
+                stats["shared_trees"] += 1
+                steps.append("one object put at two positions")
+            for _, nd in true_nodes(T, tree):
                 if r.random() < 0.15:
                     setattr(nd, "_luqum_name", r.choice(["a", "b", "nm"]))
                 # a few objects no constructor builds: degree / force re-assigned after construction
@@ -343,43 +589,52 @@ def copies(T, V, r, n, res, stats):
                         nd.degree = r.choice([1, 4])
                     elif isinstance(nd, T.Boost):
                         nd.force = r.choice([Decimal("1.50"), Decimal("3"), Decimal("1E+1"), 1])
-        before = lib.g_item(tree)
-        desc = gentree.describe(tree)[:1500]
-        ids_before = {id(nd) for _, nd in gentree.all_nodes(tree)}
-        order_before = [id(nd) for _, nd in gentree.all_nodes(tree)]
-        nwf = not_wellformed(T, tree)
-        kind = r.choice(["plain", "path", "tracking"])
-        tr = {"plain": lambda: V.TreeTransformer(), "path": lambda: V.PathTrackingTransformer(),
-              "tracking": lambda: V.TreeTransformer(track_new_parents=True, track_parents=True)}[kind]()
-        stats["transformers"][kind] = stats["transformers"].get(kind, 0) + 1
-        try:
-            new = tr.visit(tree)
-        except Exception as e:
-            res.failures.append(({"kind": "copy raised", "exception": repr(e), "tree": desc}, None))
-            expected = "None"
-        else:
+        nsteps = 1 + (r.randrange(1, 4) if (rand and r.random() < 0.4) or 12 <= idx < 15 else 0)
+        for s in range(nsteps):
+            if s:
+                what = edit_in_place(T, r, g, tree)
+                if not what:
+                    break
+                stats["in_place_edits"] += 1
+                steps.append("edit: " + what)
+            before = lib.g_item(tree)                    # the tree as it is right before the call
+            desc = tdesc(T, tree)[:1500]
+            order_before = [id(nd) for _, nd in true_nodes(T, tree)]
+            ids_before = set(order_before)
+            nwf = not_wellformed(T, tree)
+            kind = r.choice(["plain", "path", "tracking", "renamed", "renamed-path"])
+            tr = make_transformer(V, kind)
+            stats["transformers"][kind] = stats["transformers"].get(kind, 0) + 1
+            steps.append("%s transformer copies %s" % (kind, desc[:300]))
             try:
-                why = copy_oracle(T, tree, new, ids_before)
+                new = tr.visit(tree)
             except Exception as e:
-                why = "result of visit() is not a tree: %r" % (e,)
-            if nwf:
-                # refutation witnesses of C08_copy_equal / C08_copy_print (attributes assigned after
-                # construction): outside "parsed or built"; only recorded
-                witnesses += 1
-                if idx < len(corpus) + len(mutated):
-                    res.notes.append("non-constructible object %s: %s" % (desc[:80], why or "copy agrees"))
-            elif why:
-                res.failures.append(({"kind": "copy", "why": why, "tree": desc, "transformer": kind}, None))
-            try:
-                expected = "(Some %s)" % lib.g_item(new)
-            except Exception:
+                res.failures.append(({"kind": "copy raised", "exception": repr(e), "history": list(steps)}, None))
                 expected = "None"
-        if lib.g_item(tree) != before or [id(nd) for _, nd in gentree.all_nodes(tree)] != order_before:
-            res.failures.append(({"kind": "copy modified its input", "tree": desc}, None))
-        cases.append("(%s, %s, %s)" % (before, expected, lib.g_bool(not nwf)))
-        payloads.append({"tree": desc, "transformer": kind})
-        if gentree.count_nodes(tree) > 1:
-            seen.add(desc)
+            else:
+                try:
+                    why = copy_oracle(T, tree, new, ids_before)
+                except Exception as e:
+                    why = "result of visit() is not a tree: %r" % (e,)
+                if nwf:
+                    # refutation witnesses of C08_copy_equal / C08_copy_print (attributes assigned after
+                    # construction): outside "parsed or built"; only recorded
+                    witnesses += 1
+                    if not rand:
+                        res.notes.append("non-constructible object %s: %s" % (desc[:80], why or "copy agrees"))
+                elif why:
+                    res.failures.append(({"kind": "copy", "why": why, "history": list(steps),
+                                          "tree_now": desc, "transformer": kind}, None))
+                try:
+                    expected = "(Some %s)" % lib.g_item(new)
+                except Exception:
+                    expected = "None"
+            if lib.g_item(tree) != before or [id(nd) for _, nd in true_nodes(T, tree)] != order_before:
+                res.failures.append(({"kind": "copy modified its input", "history": list(steps)}, None))
+            cases.append("(%s, %s, %s)" % (before, expected, lib.g_bool(not nwf)))
+            payloads.append({"history": list(steps), "transformer": kind})
+            if len(order_before) > 1:
+                seen.add(desc)
     stats["copy_witnesses_replayed"] = witnesses
     return cases, payloads, seen
 
@@ -394,19 +649,24 @@ def correspond(model_ok, res):
     for k in CLASS_NAMES + ABSTRACT_NAMES:
         assert getattr(T, k).__name__ == k
     stats = {"classes": {}, "events": 0, "handlers": 0, "abstract_handlers": 0, "cache_hits": 0,
-             "transformers": {}}
+             "transformers": {}, "prefixes": {}, "in_place_edits": 0, "shared_trees": 0}
     hc, hp, lc, lp, nontrivial = histories(T, V, r, 120 if quick else 1200, res, stats)
     cc, cp, seen = copies(T, V, r, 250 if quick else 2500, res, stats)
     res.cases = len(hc) + len(lc) + len(cc)
     res.nontrivial = len(nontrivial) + len(seen)
     res.rule = ("histories: 2-4 dynamically generated probe visitor classes (random handler sets over the 20 "
-                "concrete and 8 abstract classes, plain / path tracking, generic wrapped or not, some derived "
-                "from another probe), 1-3 instances each (track_parents random), 5-12 visits over 2-3 random "
-                "trees with instances reused; non-trivial = distinct history with >= 2 different handler sets "
-                "and at least one cache hit.  look-ups: 8-24 bare _get_method calls on fresh instances.  "
-                "copies: random trees of every class with layout, positions, names; non-trivial = distinct "
-                "tree with more than one node")
-    res.samples = hp[:3] + cp[14:17]
+                "concrete and 8 abstract classes, plain / path tracking, generic wrapped or not, default or "
+                "tweaked visitor_method_prefix / generic_visitor_method_name with decoy methods under another "
+                "prefix, some derived from another probe), 1-3 instances each (track_parents random), 5-12 "
+                "visits over 2-3 random trees (a quarter with one object at two positions) with instances "
+                "reused and random in-place edits between visits (attribute assignment on fixed-arity nodes, "
+                ".operands, children setter, shared references); every call judged on the tree as it is at "
+                "that moment (Gallina snapshot right before the call; oracle on the defining attributes and "
+                "against a rebuilt unshared deep copy); non-trivial = distinct history with >= 2 different "
+                "(prefix, handler set) and at least one cache hit.  look-ups: 8-24 bare _get_method calls on "
+                "fresh instances.  copies: random trees of every class with layout, positions, names, "
+                "sharing, copy / edit in place / copy again; non-trivial = distinct tree with more than one node")
+    res.samples = hp[:2] + cp[16:19]
     res.distribution = stats
     if not model_ok:
         res.model_error = "model did not build"
@@ -443,34 +703,45 @@ SPEC = {
     "targets": ["props/C08.vo"],
     "model_targets": ["model/Traverse.vo", "model/TreeEq.vo", "proofs/TraverseProofs.vo"],
     "module": "C08",
-    "theorems": ["C08_positions", "C08_document_order", "C08_every_node_once", "C08_handled_nodes_once", "C08_paths_in_preorder",
+    "theorems": ["C08_positions", "C08_document_order", "C08_every_node_once", "C08_handled_nodes_once",
+                 "C08_paths_in_preorder",
                  "C08_handler_most_specific", "C08_handler_first_in_mro", "C08_mro_class_before_bases",
                  "C08_context_true", "C08_cache_lookups", "C08_cache_visits", "C08_cache_shared_refuted",
+                 "C08_names_memo_refuted",
                  "C08_copy_total", "C08_copy_equal_refuted", "C08_copy_equal_partial",
                  "C08_copy_print_refuted", "C08_copy_print_partial", "C08_copy_wellformed",
                  "C08_copy_layout", "C08_copy_drops_names"],
+    "tie_facts": "C08_ties",
     "correspond": correspond,
     "statement": "probe visitors get every node exactly once in pre-order, at the handler of the most specific "
                  "class that has one, with the true ancestors / index path as context, for every history of "
-                 "visits by several classes and instances (per-instance dispatch cache); the default "
-                 "transformer never fails and returns a tree equal to the input, with the same text, classes "
-                 "and layout at every position (names are not copied)",
+                 "visits by several classes and instances (per-instance dispatch cache, no state shared between "
+                 "visitor classes); the default transformer never fails and returns a tree equal to the input, "
+                 "with the same text, classes and layout at every position (names are not copied)",
     "trusted_base": [
         "Coq 8.16.1 kernel (vm_compute for table facts, witnesses and correspondence; no native_compute)",
         "no axioms (Print Assumptions: closed under the global context)",
-        "gen/translate.py: class MROs, _equality_attrs, operator strings, cache scope of TreeVisitor._get_method",
+        "gen/translate.py: class MROs, _equality_attrs, operator strings, cache scope of TreeVisitor._get_method, "
+        "gen_getmethod_shared_state (= false: lemma names_not_memoised), gen_children_is_pure (= true: lemma "
+        "children_is_pure); all in C08_ties / C08_ties_ok, and code_cache_not_shared (used by C08_cache_lookups "
+        "and C08_cache_visits) is proved from them",
         "hand-written models coq/model/Traverse.v (visit_iter / generic_visit / child_context / _get_method / "
         "TreeTransformer.generic_visit), Eq.v (clone_item, __eq__), Print.v (__str__), tied by differential "
         "correspondence (harness/c08.py) on every run",
-        "visitor classes are identified with their set of visit_<class> handlers (camel_to_lower checked "
-        "injective on the class names at run time); handlers are probes that call the library's generic_visit",
-        "value-based tree model: object identity is not modelled",
+        "the model's dispatch is per visitor class: the handler set H of a class is what THAT class defines "
+        "under ITS OWN visitor_method_prefix (and its own generic_visitor_method_name); the model has no state "
+        "shared between visitor classes and a tree value has no hidden state (no cached children): both are "
+        "tied only by the correspondence (mixed-prefix histories, decoy methods, in-place edits between calls)",
+        "camel_to_lower checked injective on the class names at run time; handlers are probes that call the "
+        "library's generic_visit",
+        "value-based tree model: an object at two positions is two equal sub-terms (checked against the "
+        "implementation on shared trees and on their rebuilt unshared copies)",
     ],
     "assumptions": [
-        "trees contain only luqum.tree classes; no node object occurs at two positions",
+        "trees contain only luqum.tree classes and are acyclic; node objects may occur at several positions",
         "'the copy shares no node with the input' and 'the input is left unmodified' are object-identity / "
         "mutation facts outside the value model: checked on the implementation only (id() sets of all nodes, "
-        "Gallina snapshot + id() sequence before and after every visit) by harness/c08.py",
+        "Gallina snapshot + id() sequence before and after every call) by harness/c08.py",
         "copy == input and same text are proved for trees in which an implicit degree/force has its default "
         "value and an explicit boost force is normalised (what every constructor and the parser establish); "
         "objects whose degree/force attribute was re-assigned after construction are refutation witnesses "
